@@ -23,6 +23,9 @@ LEAF_FINGERPRINT = {
     "stream_id_version": {"StreamId::new", "parse", "split_once"},
     "uuid": {"parse_str", "trim"},
 }
+# keyword(): forms of `token == KW` ignoring case that were read and accepted; and callees that make the comparison partial
+KEYWORD_EQUAL_IDIOMS = [{"to_uppercase", "eq"}, {"to_ascii_uppercase", "eq"}, {"eq_ignore_ascii_case"}]
+KEYWORD_PARTIAL = {"starts_with", "ends_with", "contains", "find", "strip_prefix", "strip_suffix", "matches", "rfind"}
 # frame decoding, error construction and Option/Result/iterator plumbing: not part of what a leaf accepts
 PLUMBING = ("deref", "and_then", "ok", "map_err", "branch", "from_residual", "ok_or_else", "ok_or", "collect", "map", "from_iter", "new_display", "new", "format", "must_use",
             "from_utf8", "message_format", "message_static_message", "into", "from", "to_string", "unexpected_format", "expected_format", "filter", "then", "then_some",
@@ -170,6 +173,8 @@ def run(chk, facts_dir, tier):
                       "literal -> itself, Uuid -> uuid, integers -> boundary values of their type, caller strings -> wildcard matching any value leaf) is accepted, keywords by keyword leaves")
     chk.rule("R21.5", "G5 TABLES: command names the client emits are dispatched by Command::try_from; ExpectedVersion keywords agree between sierradb-protocol Display/FromStr, the "
                       "server's expected_version() and the client's emission; every dispatched command has a parser and vice versa")
+    chk.rule("R21.6", "KEYWORD LEAF: parser.rs::keyword accepts a token iff the whole token equals the keyword ignoring case (`to_uppercase() ==`, `eq_ignore_ascii_case`); a "
+                      "comparison of a part of the token (starts_with / zip without a length test / contains) is reported; any other new form is INCONCLUSIVE until it is read")
     chk.not_decided += ["the values carried in the parsed request (that `FROM 50` yields from_version = 50): closures are opaque to the grammar model",
                         "caller-supplied strings are wildcards: `subscribe_to_partitions(\"0-127\")`-style range strings are not judged",
                         "client loops are explored with 1 and 2 iterations (an empty map is assumed to be rejected by the client before emission)"]
@@ -184,6 +189,18 @@ def run(chk, facts_dir, tier):
         got = fps.get(fn)
         if got is None:
             raise Inconclusive("leaf parser parser.rs::%s not found" % fn)
+        if fn == "keyword" and got != want:
+            # the accepted idioms of whole-token, case-insensitive equality; and the forms that are known to compare only a part of the token
+            if got in KEYWORD_EQUAL_IDIOMS:
+                chk.ok("R21.6", "keyword(): whole-token comparison (%s)" % "+".join(sorted(got)), "crates/sierradb-server/src/parser.rs")
+                continue
+            partial = sorted(got & KEYWORD_PARTIAL) or (["zip"] if "zip" in got and "len" not in got else [])
+            if partial:
+                kb = prog.bodies.get(S + "parser::keyword")
+                chk.fail("R21.6", S + "parser::keyword", "keyword-partial-match", "the keyword leaf compares only a part of the token with the keyword (%s%s): every argument that "
+                         "merely starts with a keyword (a stream id `from-archive`, an event name `metadata-index`), a proper prefix of it or the empty string is now read as "
+                         "that keyword, in every command" % ("/".join(partial), ": Iterator::zip stops at the shorter side and no lengths are compared" if partial == ["zip"] else ""), kb)
+                continue
         if got != want:
             raise Inconclusive("leaf table stale: parser.rs::%s closures now call %s (frozen: %s); re-read it and update rules/grammar.py" % (fn, sorted(got), sorted(want)))
 
